@@ -6,6 +6,7 @@
 import Ark.Props.C08
 import Ark.Props.C08World
 import Ark.Props.C08Rel
+import Ark.Props.C08Xchg
 
 namespace Ark.Props.C08Top
 open Ark
@@ -132,6 +133,40 @@ theorem rel_relRound_observer_independent : type_of% @Ark.Props.C08Rel.relRound_
 
 /-- finding: with all 64 lock bits outstanding SetRelations panics (the lock-cycle hypothesis is needed) -/
 theorem rel_lock_hypothesis_necessary : type_of% @Ark.Props.C08Rel.lock_hypothesis_necessary := @Ark.Props.C08Rel.lock_hypothesis_necessary
+
+
+
+/-! ### The events of Exchange in worlds with relation components (Props/C08Xchg) -/
+
+/-- Exchange is rejected exactly as without observers, on every access path -/
+theorem xrel_exchange_rejected_as_without_observers : type_of% @Ark.Props.C08Xchg.exchange_rejected_as_without_observers := @Ark.Props.C08Xchg.exchange_rejected_as_without_observers
+
+/-- … and accepted exactly as without observers, with the observer-free result up to observers/log/lock pool -/
+theorem xrel_exchange_accepted_as_without_observers : type_of% @Ark.Props.C08Xchg.exchange_accepted_as_without_observers := @Ark.Props.C08Xchg.exchange_accepted_as_without_observers
+
+/-- **the callbacks of Exchange(e, add, rem, targets)**: a removal round under one lock — the OnRemoveComponents observers whose specification fires (if rem is non-empty), then the OnRemoveRelations observers (if a relation component is removed) —, the move, then the OnAddComponents observers (if add is non-empty) and the OnAddRelations observers (if targets are given) -/
+theorem xrel_exchange_callbacks : type_of% @Ark.Props.C08Xchg.exchange_callbacks := @Ark.Props.C08Xchg.exchange_callbacks
+
+/-- all four rounds are evaluated on one pair of masks: the entity's mask before the call and its mask after the complete exchange -/
+theorem xrel_exchange_masks : type_of% @Ark.Props.C08Xchg.exchange_masks := @Ark.Props.C08Xchg.exchange_masks
+
+/-- a removal observer fires iff its For components are among the removed ones (or it has none) and With/Without/Exclusive hold for the mask BEFORE the call -/
+theorem xrel_fires_remove_iff : type_of% @Ark.Props.C08Xchg.fires_remove_iff := @Ark.Props.C08Xchg.fires_remove_iff
+
+/-- an addition observer fires iff its For components are among the added ones (or it has none) and With/Without/Exclusive hold for the mask BEFORE the call (as documented: 'had before the operation') -/
+theorem xrel_fires_add_iff : type_of% @Ark.Props.C08Xchg.fires_add_iff := @Ark.Props.C08Xchg.fires_add_iff
+
+/-- each firing observer is notified exactly once -/
+theorem xrel_exchange_exactly_once : type_of% @Ark.Props.C08Xchg.exchange_exactly_once := @Ark.Props.C08Xchg.exchange_exactly_once
+
+/-- whether an observer is notified does not depend on the other observers (all four rounds) -/
+theorem xrel_exchange_observer_independent : type_of% @Ark.Props.C08Xchg.exchange_observer_independent := @Ark.Props.C08Xchg.exchange_observer_independent
+
+/-- the access path matters only when nothing is added: Unsafe.Exchange then skips both addition rounds, the typed path notifies the OnAddComponents observers without For -/
+theorem xrel_path_matters_only_for_pure_removals : type_of% @Ark.Props.C08Xchg.path_matters_only_for_pure_removals := @Ark.Props.C08Xchg.path_matters_only_for_pure_removals
+
+/-- finding: with all 64 lock bits outstanding an exchange with removals and a removal observer panics (the lock-cycle hypothesis is needed) -/
+theorem xrel_lock_hypothesis_necessary : type_of% @Ark.Props.C08Xchg.lock_hypothesis_necessary := @Ark.Props.C08Xchg.lock_hypothesis_necessary
 
 
 end Ark.Props.C08Top
